@@ -37,6 +37,24 @@ CHECKS = {
         technique="Coq proof by induction over chunk lists + differential correspondence on chunked streams",
         design_ref="6 (C02)",
     ),
+    "C03": dict(
+        text="Coq theorem by induction over histories: for every generated subunit class, every oracle and EVERY message history, a read returns the decoding "
+        "of the most recent decodable value reported for exactly that subunit id and function name (else None); non-interference lemmas; totality of the handler; "
+        "reflection over the regenerated tables (function names unique per class, ids unique). Real instances of all 23 classes are driven through a real "
+        "YncaConnection with generated histories and compared with an independent reference after messages and with the model at the end.",
+        note=BASE_NOTE + "Modelled, not verified: dict/descriptor protocol of CPython; 'reading transmits nothing' holds by construction in the model and is checked on the implementation by counting transmissions.",
+        technique="Coq proof by induction over message histories + reflection + differential correspondence",
+        design_ref="6 (C03)",
+    ),
+    "C10": dict(
+        text="Coq theorems about the whole reader-thread path as one total function with explicit exceptions (framing -> UTF-8 replace decoding -> parse -> every "
+        "subunit handler incl. value decoding): never Raise for EVERY chunk sequence / instance set / oracle; composition (later input processed normally); an undecodable "
+        "value keeps the previous value; typing invariant of all cached values. The real path (YncaProtocol.data_received -> YncaConnection -> 23 real instances) is fed "
+        "every (function x odd text) line and random hostile streams, judged by monitors, and compared with the model.",
+        note=BASE_NOTE + "Modelled, not verified: that an exception escaping data_received ends pyserial's reader loop (read from pyserial's source); user callbacks that raise are outside the statement.",
+        technique="Coq proof (total function with explicit exception channel, invariants) + differential correspondence on hostile byte streams",
+        design_ref="6 (C10)",
+    ),
 }
 
 ALL = ["C%02d" % i for i in range(1, 21)]
